@@ -527,6 +527,13 @@ func (p *PX) instrs(fr *pxFrame, b *ssa.BasicBlock, from int, st *pxState, k pxC
 				}
 			}
 			p.byteStore(x, fr, st)
+		case *ssa.MapUpdate:
+			// remembered for rules about tables kept in struct fields (numbering)
+			if ld, ok := x.Map.(*ssa.UnOp); ok {
+				if fa, ok := ld.X.(*ssa.FieldAddr); ok {
+					st.trace = append(st.trace, pxEvent{Kind: "mapupdate", Frame: fr, Args: []*Term{p.term(x.Key, fr, st), p.term(x.Value, fr, st)}, Env: st.env, Pos: p.w.instrPos(x), Extra: fieldID(fa)})
+				}
+			}
 		case *ssa.Call:
 			p.byteCall(x, fr, st)
 			sc := x.Call.StaticCallee()
